@@ -515,12 +515,89 @@ def run_fuzz(ctx, seconds):
                 ctx.violation(key, {"string": payload, "found_by": "atheris"})
 
 
+
+def part_spelling_history(payload):
+    """equivalent spellings in a registry whose symbols are re-scaled between two readings: whatever was read (and memoised)
+    before, all spellings of one unit are equal afterwards, carry the registry's current scale, and their printed form re-reads
+    to the same unit in that registry"""
+    from unyt import Unit
+    from unyt.exceptions import UnitParseError
+    from unyt.unit_registry import UnitRegistry
+
+    known = core.Known("C20")
+    part = core.Part()
+    groups = [["ohm", "Ω", "Ohm"], ["kohm", "kΩ"], ["angstrom", "Å", "Angstrom"], ["percent", "%"], ["degC", "°C", "celsius"], ["degF", "°F", "fahrenheit"], ["degree", "°", "deg"],
+              ["um", "µm", "μm", "micrometer"], ["uohm", "µΩ", "μΩ"], ["mohm/s", "mΩ/s", "mΩ * s**-1"], ["angstrom**2", "Å**2", "Å * Å"], ["1/ohm", "Ω**-1", "ohm**(-1.0)"],
+              ["year", "yr"], ["parsec", "pc"], ["kiloparsec", "kpc"], ["solar_mass", "Msun", "msun"], ["liter", "L", "litre"], ["light_year", "ly"], ["hour", "hr"]]
+    for warm in (True, False):
+        for factor in (3.0, 0.5):
+            ref = UnitRegistry()
+            for g in groups:
+                reg = UnitRegistry()  # one registry per group: the expected scale is "fresh registry x factor"
+                firsts = {}
+                for sp in g:
+                    try:
+                        firsts[sp] = Unit(sp, registry=reg) if warm else None
+                        Unit(sp, registry=ref)
+                    except UnitParseError:
+                        firsts[sp] = "unparsable"
+                usable = [sp for sp in g if firsts[sp] != "unparsable"]
+                if len(usable) < 2:
+                    part.count("spelling group with fewer than two accepted spellings")
+                    continue
+                syms = sorted(str(a) for a in Unit(usable[0], registry=ref).expr.free_symbols)
+                edited = []
+                for sym in syms:
+                    if sym in reg.lut:
+                        try:
+                            reg.modify(sym, float(reg.lut[sym][0]) * factor)
+                            edited.append(sym)
+                        except Exception:
+                            pass
+                if not edited:
+                    part.count("spelling group whose symbols could not be re-scaled")
+                    continue
+                us = {}
+                for sp in usable:
+                    part.ev()
+                    part.nt(("spelling-history", sp, warm, factor))
+                    try:
+                        us[sp] = Unit(sp, registry=reg)
+                    except Exception as e:
+                        core.classify(known, part, f"C20:spelling-after-edit:raises:{type(e).__name__}", {"spelling": sp, "edited": edited})
+                u0 = us.get(usable[0])
+                if u0 is None:
+                    continue
+                want = Unit(usable[0], registry=ref)
+                # expected scale: every edited symbol enters with its exponent
+                expo = {str(k): float(v) for k, v in Unit(usable[0], registry=ref).expr.as_powers_dict().items() if str(k) in edited}
+                want_scale = float(want.base_value) * float(np.prod([factor ** e for e in expo.values()])) if expo else None
+                for sp, u in us.items():
+                    if not same(u, u0, 1e-12):
+                        core.classify(known, part, "C20:spelling-variants-differ:after-registry-edit", {"first": usable[0], "variant": sp, "edited": edited, "read_before_edit": warm, "a": facts(u0), "b": facts(u)})
+                    if want_scale and not u.base_offset and abs(float(u.base_value) / want_scale - 1) > 1e-12:
+                        core.classify(known, part, "C20:spelling-after-edit:stale-scale", {"spelling": sp, "edited": edited, "read_before_edit": warm, "got": float(u.base_value), "want": want_scale})
+                    for how, txt in (("str", str(u)), ("repr", repr(u))):
+                        part.ev()
+                        try:
+                            back = Unit(txt, registry=reg)
+                        except Exception as e:
+                            core.classify(known, part, f"C20:printed-unit-does-not-parse:{how}:after-registry-edit", {"spelling": sp, "text": txt, "error": type(e).__name__})
+                            continue
+                        if not same(back, u, 1e-12):
+                            core.classify(known, part, f"C20:printed-text-denotes-another-unit:{how}:after-registry-edit", {"spelling": sp, "text": txt, "edited": edited, "unit": facts(u), "re-read": facts(back)})
+                if len(part.samples) < 2:
+                    part.sample({"spellings": usable, "re-scaled": edited, "factor": factor, "read_before_edit": warm, "scales_after": [float(u.base_value) for u in us.values()]})
+    return part
+
+
 def run(ctx):
     ctx.rule = (
         "Hypothesis: valid expressions from the AST grammar over all table names (1-4 factors, rational/float exponents, coefficients) each in ~12 equivalent "
         "spellings; units from unit arithmetic (3 compounds, powers, simplify, print-simplify-print histories, custom registry) printed with str/repr and "
         "re-parsed, and pickled; token-level mutations (drop/dup/swap/insert/replace with ~110 hazard tokens); exhaustive: str/repr round trip of every "
-        "atomic and prefixed name, a curated list of ~80 non-vocabulary Python constructs that must be refused, hazard tokens glued to names. Every parse "
+        "atomic and prefixed name, a curated list of ~80 non-vocabulary Python constructs that must be refused, hazard tokens glued to names; 19 groups of equivalent spellings (unicode / ASCII / written-out) read in a registry before and after "
+        "their symbols were re-scaled. Every parse "
         "runs under an audit hook with canaries. thorough adds a coverage-guided atheris campaign. non-trivial = valid expressions with >=2 atoms or a "
         "non-ASCII name; distinct arithmetic shapes; malformed strings that still contain a name (reach the transformer); every atomic name"
     )
@@ -532,6 +609,7 @@ def run(ctx):
     names = [n for n, _, _ in G.all_unit_names()]
     ctx.merge(core.pmap(MOD, "part_atomic", [{"names": sh} for sh in core.shards(names, 16)], timeout=ctx.pick(300, 900)))
     ctx.merge(core.pmap(MOD, "part_nonvocab", [{}], timeout=120))
+    ctx.merge(core.pmap(MOD, "part_spelling_history", [{}], timeout=120))
     n = ctx.pick(1600, 16000)
     ctx.merge(core.pmap(MOD, "part_random", [{"n": n // 16, "seed": ctx.seed * 1000 + 10 * i} for i in range(16)], timeout=ctx.pick(600, 3600)))
     if not ctx.quick:
